@@ -406,14 +406,35 @@ func replayObligation(prog *Prog, r *FuncResult, o *Obl, verif, repo string) *Re
 		return res
 	}
 	script := buildScript(v.d.lines, v.axioms, o, false, false, v.d.mode)
-	ins, why := concreteInputs(r, o, script)
+	ins, mctx, why := concreteInputs2(r, o, script)
 	if why != "" {
 		res.Detail["replay"] = "not attempted: " + why
 		return res
 	}
+	if len(mctx.lossy) > 0 {
+		res.Detail["replay_lossy_inputs"] = mctx.lossy
+	}
 	pkg := fi.pkg.types
 	var sb strings.Builder
-	fmt.Fprintf(&sb, "package %s\n\nimport (\n\t\"bytes\"\n\t\"fmt\"\n\t\"math\"\n\t\"reflect\"\n\t\"testing\"\n)\n\nvar _ = bytes.Compare\nvar _ = math.Inf\nvar _ = reflect.DeepEqual\n\n", pkg.Name())
+	extraImports := ""
+	for path, name := range mctx.imports {
+		if path == "math" || path == "bytes" || path == "fmt" || path == "reflect" || path == "testing" {
+			continue
+		}
+		extraImports += fmt.Sprintf("\t%s %q\n", name, path)
+	}
+	// imports used by the types of the parameters (typeStr below may add more; collect first)
+	for _, in := range ins {
+		mctx.typeStr(in.t)
+	}
+	for path, name := range mctx.imports {
+		line := fmt.Sprintf("\t%s %q\n", name, path)
+		if path == "math" || path == "bytes" || path == "fmt" || path == "reflect" || path == "testing" || strings.Contains(extraImports, line) {
+			continue
+		}
+		extraImports += line
+	}
+	fmt.Fprintf(&sb, "package %s\n\nimport (\n\t\"bytes\"\n\t\"fmt\"\n\t\"math\"\n\t\"reflect\"\n\t\"testing\"\n%s)\n\nvar _ = bytes.Compare\nvar _ = math.Inf\nvar _ = reflect.DeepEqual\n\n", pkg.Name(), extraImports)
 	sb.WriteString("func verifIte(c bool, a, b func() any) any { if c { return a() }; return b() }\n")
 	sb.WriteString("func verifClone[T any](x T) T { rv := reflect.ValueOf(&x).Elem(); if rv.Kind() == reflect.Slice && !rv.IsNil() { n := reflect.MakeSlice(rv.Type(), rv.Len(), rv.Len()); reflect.Copy(n, rv); return n.Interface().(T) }; return x }\n")
 	sb.WriteString("func verifSeqEq[T comparable](a, b []T) bool { if len(a) != len(b) { return false }; for i := range a { if a[i] != b[i] { return false } }; return true }\n\n")
